@@ -2,6 +2,7 @@ package main
 
 import (
 	"fmt"
+	"time"
 
 	"github.com/cosmos/iavl"
 
@@ -10,20 +11,27 @@ import (
 
 func main() {
 	st := seam.NewMemStore()
-	t := iavl.NewMutableTree(st, 0, false, iavl.NewNopLogger())
-	t.Set([]byte("k1"), []byte("v1"))
-	fmt.Println(t.Load())
-	t.Rollback()
-	v, err := t.Get([]byte("k1"))
-	fmt.Printf("after rollback Get=%q %v\n", v, err)
-	_, w, _ := t.GetWithIndex([]byte("k1"))
-	fmt.Printf("walk=%q\n", w)
-	t.Set([]byte("k2"), []byte("v2"))
-	fmt.Println(t.SaveVersion())
-	v, err = t.Get([]byte("k1"))
-	fmt.Printf("after save Get(k1)=%q %v\n", v, err)
-	t2 := iavl.NewMutableTree(st, 0, false, iavl.NewNopLogger())
+	t := iavl.NewMutableTree(st, 100, false, iavl.NewNopLogger(), iavl.AsyncPruningOption(true))
+	t.Load()
+	for i := 1; i <= 5; i++ {
+		t.Set([]byte(fmt.Sprintf("k%d", i)), []byte("v"))
+		t.SaveVersion()
+	}
+	fmt.Println("del", t.DeleteVersionsTo(3))
+	for i := 0; i < 100 && t.VersionExists(3); i++ {
+		time.Sleep(20 * time.Millisecond)
+	}
+	fmt.Println("avail", t.AvailableVersions())
+	for v := int64(1); v <= 6; v++ {
+		_, e1 := t.GetImmutable(v)
+		val, e2 := t.GetVersioned([]byte("k1"), v)
+		fmt.Println(v, "exists", t.VersionExists(v), "getimm err", e1, "getversioned", string(val), e2)
+	}
+	t2 := iavl.NewMutableTree(st, 100, false, iavl.NewNopLogger())
 	fmt.Println(t2.Load())
-	v, err = t2.Get([]byte("k1"))
-	fmt.Printf("reopened Get(k1)=%q %v\n", v, err)
+	fmt.Println("fresh handle avail", t2.AvailableVersions())
+	for v := int64(1); v <= 5; v++ {
+		_, err := t.LoadVersion(v)
+		fmt.Println("load", v, err, t.Version())
+	}
 }
